@@ -1,9 +1,11 @@
 #!/bin/sh
 # tools/multiseed.sh <seeds...> : quick tier of every check for several VERIF_SEED values (no-false-alarm soak)
 export WPSIM_OUT="${WPSIM_OUT:-$(pwd)}"
+BIN="$WPSIM_OUT/.wpsim.multiseed.$$"; cp /verif/.target/release/wpsim "$BIN" || exit 2
+trap 'rm -f "$BIN"' EXIT
 for seed in "$@"; do
   for id in C01 C03 C04 C05 C06 C07 C08 C10 C11 C12 C13 C14 C15 C16 C17 C18 C19 C20; do
-    /verif/.target/release/wpsim check $id --tier quick --seed $seed | tail -1
+    "$BIN" check $id --tier quick --seed $seed | grep -E "quick:|VIOLATION" | cut -c1-220
     rc=$?
   done
 done
